@@ -757,6 +757,7 @@ func checkEmit(prop, tier string, seed int, updateLedger bool) int {
 	var lines, knownHit []string
 	var samples []interface{}
 	os.MkdirAll(filepath.Join(outRoot, "replays", prop), 0755)
+	nReplays := 0
 	for _, o := range owned {
 		if o.OK {
 			discharged++
@@ -790,8 +791,19 @@ func checkEmit(prop, tier string, seed int, updateLedger bool) int {
 				rec["emitted_text_of_the_real_emitter"] = texts
 			}
 		}
+		suffix := " no-failing-input-found"
+		if nReplays < 12 { // each replay is one build + run of the real emitter (a few seconds)
+			nReplays++
+			if rep := replayEmit(o, runs); rep != nil {
+				rec["replay"] = rep
+				if r, _ := rep["reproduced"].(bool); r {
+					p = filepath.Join(outRoot, "replays", prop, sanitize(o.Name)+".reproduced.json")
+					suffix = ""
+				}
+			}
+		}
 		writeJSON(p, rec)
-		lines = append(lines, fmt.Sprintf("VIOLATION property=%s replay=%s no-failing-input-found", prop, p))
+		lines = append(lines, fmt.Sprintf("VIOLATION property=%s replay=%s%s", prop, p, suffix))
 	}
 	var vanished []string
 	for n, st := range ledger.Obligations {
